@@ -381,6 +381,18 @@ pub fn check(ctx: &mut Ctx) {
                 }
             }
         }
+        // attribute-like content on the CLOSING tag (the comment attribute, the README's multi-line layout) changes no decision
+        for (open, ready) in [("rm name='a'", true), ("rm name='b'", false), ("tl to=\"2020-01-01 00:00:00\"", true), ("rm name='a' skip", false)] {
+            let tag = open.split(' ').next().unwrap();
+            for close_extra in ["", " c=\"end of block\"", " \n * ", " c='x y' k", "\nc='x'", " "] {
+                for pre in ["A", "A\n"] {
+                    let el = format!("<{open}>P</{tag}{close_extra}>");
+                    let src = format!("{pre}{el}B");
+                    let expect = if ready { format!("{pre}B") } else { src.clone() };
+                    docs.push((src, expect, tag.to_string()));
+                }
+            }
+        }
         let n = docs.len();
         ctx.exhaustive("look-alike-tags", &format!("{n} documents with two tags whose attribute texts coincide once the quotes are dropped (a quoted value is opaque: each element is decided on its own)"), vec![docs], |docs, obs| {
             let mut cfg = Cfg::simple("<", ">");
